@@ -8,22 +8,37 @@ Import ListNotations.
 (* After the tunnel                                                     *)
 (* ------------------------------------------------------------------ *)
 
-Lemma after_tunnel_iff a b c d :
-  after_tunnel a b c d = mkAfter true false <-> a = true /\ b = true /\ c = true /\ d = true.
+Lemma after_tunnel_iff a b c d e :
+  after_tunnel a b c d e = mkAfter true false true
+  <-> a = true /\ b = true /\ c = true /\ d = true /\ e = true.
 Proof.
-  unfold after_tunnel. destruct a, b, c, d; simpl; split; intro H;
+  unfold after_tunnel. destruct a, b, c, d, e; simpl; split; intro H;
     try reflexivity; try discriminate; try tauto;
-    destruct H as (? & ? & ? & ?); discriminate.
+    destruct H as (? & ? & ? & ? & ?); discriminate.
 Qed.
 
-Lemma after_tunnel_released : after_tunnel_here = mkAfter true false.
+Lemma after_tunnel_released : after_tunnel_here = mkAfter true false true.
 Proof. vm_compute. reflexivity. Qed.
+
+Lemma target_release_ok_iff k : target_release_ok k = true <-> k <> Some false.
+Proof. destruct k as [[|]|]; simpl; split; intro H; try reflexivity; try discriminate; congruence. Qed.
+
+Lemma target_release_agrees_here k :
+  target_release_agrees after_tunnel_here k = target_release_ok k.
+Proof. destruct k as [[|]|]; vm_compute; reflexivity. Qed.
+
+(* nothing of a previous exchange's shaping reaches the tunnel *)
+Lemma no_stale_shaping stale : tunnel_cut shaping_reset_before_connect stale = None.
+Proof. reflexivity. Qed.
+
+Lemma stale_shaping_without_reset off : tunnel_cut false (Some off) = Some off.
+Proof. reflexivity. Qed.
 
 Lemma probe_ok_iff w q : probe_ok w q = true <-> w = true /\ q = false.
 Proof. unfold probe_ok. destruct w, q; simpl; split; intro H; try discriminate; try tauto; destruct H; discriminate. Qed.
 
 (* a tunnel whose handler does not return a closing result is refuted by the probe's spec *)
-Lemma after_tunnel_nil_refuted : after_tunnel false true true true = mkAfter false true.
+Lemma after_tunnel_nil_refuted : after_tunnel false true true true true = mkAfter false true true.
 Proof. reflexivity. Qed.
 
 (* every 2xx answer of the downstream proxy announces the tunnel *)
